@@ -155,5 +155,60 @@ func propTable() map[string]PropSpec {
 		},
 		Outside: "variable parts longer than listed (up to 255); reserved bit values in descriptors are not compared (don't-care mask)",
 	}
+	c13 := func(level int64) []TaskSpec {
+		var dec, enc [][]int64
+		counts := map[int64][]int64{0: {0, 1, 4}, 1: {0, 1, 3}, 2: {0, 1, 2}, 3: {0, 1, 2}, 4: {0, 1, 2}, 5: {0}}
+		if level > 0 {
+			counts = map[int64][]int64{0: {0, 1, 2, 4, 16}, 1: {0, 1, 2, 3, 6}, 2: {0, 1, 2, 4}, 3: {0, 1, 2, 4}, 4: {0, 1, 2, 4}, 5: {0}}
+		}
+		for k := int64(0); k <= 5; k++ {
+			for _, n := range counts[k] {
+				dec = append(dec, []int64{k, n, -1, level})
+			}
+			// two sections per unit: a second section of every kind behind this one
+			dec = append(dec, []int64{k, 1, (k + 1) % 6, level})
+			if level > 0 {
+				dec = append(dec, []int64{k, 1, (k + 3) % 6, level}, []int64{k, 0, k, level})
+			}
+		}
+		for k := int64(0); k <= 1; k++ {
+			for _, n := range counts[k] {
+				enc = append(enc, []int64{k, n, level})
+			}
+		}
+		return []TaskSpec{
+			{Harness: "HarnessC13Decode", ArgSets: dec, Reach: []string{"C13.decode.end"}},
+			{Harness: "HarnessC13Encode", ArgSets: enc, Reach: []string{"C13.encode.end"}, Asserts: []string{"C13."}},
+		}
+	}
+	t["C13"] = PropSpec{
+		ID: "C13", Quick: c13(0), Thorough: c13(1),
+		Bounds: map[string]string{
+			"quick":    "decode: PAT 0/1/4 programs, PMT 0/1/3 streams, SDT/NIT/EIT 0/1/2 entries, TOT; table_id over all variants of the type (EIT: 0x4E..0x6F symbolic); every identifier/flag/version field symbolic; descriptor loops: first loop 0..1 descriptors of {stream identifier, unknown tag, user defined} with 0/2 body bytes, other loops {empty, one stream identifier}; pointer_field in {0,1,5} with arbitrary filler; 1..2 sections per unit; trailing 0xFF stuffing 0/3 bytes; EIT/TOT times are concrete representatives (C15 covers the time kernels). encode: PAT 0/1/4 programs, PMT 0/1/3 streams with the same descriptor loops, pointer_field 0/2",
+			"thorough": "PAT up to 16 programs, PMT up to 6 streams, SDT/NIT/EIT up to 4 entries, descriptor loops of 0..2 descriptors everywhere, three two-section combinations per kind",
+		},
+		Outside: "loops up to the 1021/4093-byte section limits (pure repetition of the same loop body); descriptor bodies (C14); DVB time arithmetic (C15)",
+	}
+	c09 := func(level int64) []TaskSpec {
+		in := [][]int64{{0, 5}, {0, 8}, {0, 9}, {0, 13}, {0, 24}, {2, 13}, {66, 12}, {66, 17}, {78, 15}, {115, 11}, {112, 8}, {1, 8}}
+		if level > 0 {
+			in = append(in, [][]int64{{0, 6}, {0, 7}, {0, 12}, {0, 16}, {0, 17}, {0, 32}, {0, 64}, {2, 14}, {2, 18}, {70, 12}, {65, 13}, {111, 15}, {78, 27}, {115, 14}}...)
+		}
+		enc := [][]int64{{0, 0, 0}, {0, 1, 0}, {0, 4, 0}, {1, 0, 0}, {1, 1, 0}, {1, 3, 0}}
+		return []TaskSpec{
+			{Harness: "HarnessC09HasCRC", Reach: []string{"C09.hascrc.end"}},
+			{Harness: "HarnessC09In", ArgSets: in, TimeoutMs: 20000, Reach: []string{"C09.in.accepted", "C09.in.rejected"}},
+			{Harness: "HarnessC13Encode", ArgSets: enc, Reach: []string{"C13.encode.end"}, Asserts: []string{"C09."}},
+		}
+	}
+	t["C09"] = PropSpec{
+		ID: "C09", Quick: c09(0), Thorough: c09(1),
+		Bounds: map[string]string{
+			"quick":    "input: every byte string of 3+L bytes offered as a section of table id T, for (T,L) in PAT{5,8,9,13,24}, PMT{13}, SDT{12,17}, EIT{15}, TOT{11}, TDT{8}, CAT-id{8}; declared section_length 0..L (every value); all bytes symbolic => every corruption of every section of that size; hasCRC32/hasPSISyntaxHeader for all 2^8 table ids. output: PAT 0/1/4 programs, PMT 0/1/3 streams (section_length and CRC_32 of the bytes written)",
+			"thorough": "more lengths per table (PAT up to 64 bytes) and table-id variants",
+		},
+		Outside:     "sections longer than listed on the input side (the CRC check is one length-generic loop); NIT sections with arbitrary bytes (two nested symbolic loop lengths: >10^5 paths at the minimal size; the CRC code path is the same as for the other table ids); Muxer-level emission is asserted in the Muxer harnesses",
+		Assumptions: []string{"feasibility of 'CRC matches' branches over many symbolic bytes is found by model repair + evaluation (or left unknown: both sides explored); the proof obligation itself is discharged syntactically (the goal is the branch condition the library has just tested) or by the solver"},
+	}
 	return t
 }
